@@ -7,7 +7,7 @@ k = json.load(open(f"{V}/known_findings.json"))
 out.append("\n---------------------------------------------------------------------------------------------------------------------\n\n"
            "## 2. Genuine defects of the unchanged tree\n\n"
            "Every entry was reproduced on the real code by the check of its property (replay file) before it was repaired or recorded.\n"
-           "`DESIGN-plan.md` §2 has the original probe table (D1–D35); D36, D37, D41–D43 and the unnumbered ones were found while building.\n\n"
+           "`DESIGN-plan.md` §2 has the original probe table (D1–D35); D36–D61 were found while building (by the correspondence, by the thorough tier, or by a strengthening round after a blind mutation round).\n\n"
            "### 2.1 Repaired (`fix:` commits in /repo; `fixed:` lines of known_findings.json)\n\n| property | commit | what failed |\n|---|---|---|\n")
 for line in sorted(k["fixed"]):
     m = re.match(r"fixed: property=(C\d+) ([0-9a-f]{7}) (.*)", line)
@@ -29,8 +29,9 @@ for p in sorted(man):
     except Exception:
         pass
     st = "partial (parameters)" if p in ("C17", "C20") else "full"
-    if p in ("C15", "C17"):
-        st += " + known finding(s)"
+    kf = [f["id"] for f in k["findings"] if f["property"] == p]
+    if kf:
+        st += " + known finding(s) " + ", ".join(kf)
     out.append(f"| {p} | {n} | {st} | `Hgxv.Props.{p}`, `driver_{p.lower()}` | {ev.get('wall_s', '?')} s, {ev.get('coverage', {}).get('evaluations', '?')} cases |\n")
 out.append("\n")
 for p in sorted(man):
